@@ -434,3 +434,38 @@ def r17_6(ctx):
                 ctx.ok(('reset', 'listen_endpoint', 'default'))
             else:
                 ctx.bad('reset|listen_endpoint|value', f"reset stores {nm}() into listen_endpoint, expected IpListenEndpoint::default()", body=b, bb=bi)
+
+
+@rule('R17.11', ['C17', 'C11'], floor=8, clause='a RST is judged by its own sequence number: in the synchronised states a RST reaches a state change only behind `RCV.NXT <= SEG.SEQ` on the bare sequence number (text carried by the RST does not bring a sequence number left of the window into it)')
+def r17_11(ctx):
+    F = ctx.F
+    b = ctx.method(SOCK, 'process')
+    ss = [bi for bi, *_ in call_sites(b, FN + 'set_state')]
+    WS = f"F:{SOCK}.remote_seq_no"
+    SEQ = f"F:{REPR}.seq_number"
+
+    def bare(f):
+        if f[0] != 'rel':
+            return False
+        for lo, hi, ops in ((f[2], f[3], ('Le', 'Lt', 'Eq')), (f[3], f[2], ('Ge', 'Gt', 'Eq'))):
+            if f[1] in ops and WS in leafs(lo) and SEQ not in leafs(lo) and SEQ in leafs(hi) and WS not in leafs(hi) \
+                    and not any('payload' in l for l in leafs(hi)):
+                return True
+        return False
+    g0 = guard_edges(F, b, bare)
+    ctx.need(g0, "comparison of RCV.NXT with the bare segment sequence number in tcp::process")
+    for S in F.variants(STATE):
+        if S in ('Listen', 'Closed', 'SynSent'):
+            continue
+        r = partition_run(ctx, b, S, 'Rst')
+        ok = r.edge_ok()
+        sites = feasible_sites(b, ss, ok)
+        if not sites:
+            continue
+        g = derived_guard_edges(b, g0, ok, pred=bare)
+        badp = cut_sites(b, sites, g, ok)
+        if badp:
+            ctx.bad(f"process|{S}|Rst|sequence-left-of-window", f"in {S} a RST whose sequence number lies left of the receive window but whose text reaches into it changes the state: "
+                    "a blind attacker needs to hit a much larger range of sequence numbers to reset the connection", body=b, bb=badp[0][0], path=badp[0][1])
+        else:
+            ctx.ok(('rst bare seq', S), sample=dict(state=S, control='Rst', guard='RCV.NXT <= SEG.SEQ'))
